@@ -55,6 +55,9 @@ fn main() {
 		e.0 += 1;
 		e.1 += f.checks;
 		total_checks += f.checks;
+		for o in f.obs.drain(..) {
+			writeln!(out, "{}", json!({"obs": o})).unwrap();
+		}
 		if !f.list.is_empty() {
 			e.2 += 1;
 			failed_cases += 1;
